@@ -185,6 +185,22 @@ def c13_5(ctx):
             ctx.undecided("count-mismatch-is-missing", ctx.where(m), "Tx.missing_unspents looks at len(self.unspents) in a form this rule does not read")
         else:
             ctx.bad("count-mismatch-is-missing", ctx.where(m), "Tx.missing_unspents never compares the number of recorded spent outputs with the number of inputs: a list with MORE entries than inputs passes, and total_in() / fee() then sum outputs that no input spends")
+    # (e) the amounts written to the unspecified outputs come from split_with_remainder, the one place whose shares are shown to
+    #     add up to the total (C13.2): a second split written out next to it shares none of that argument
+    dsp = ctx.func(TU, "distribute_from_split_pool")
+    wd = sym.walk(ctx, dsp, int_names=INTS)
+    cw = [e for e in wd.effects if e.kind == "setattr" and e.attr == "coin_value"]
+    uses_split = any("split_with_remainder(" in norm(n) for n in ast.walk(sym.expanded(ctx, dsp)) if isinstance(n, ast.Call))
+    if not cw:
+        ctx.undecided("split-through-split_with_remainder", ctx.where(dsp), "distribute_from_split_pool writes no coin_value")
+    elif uses_split:
+        ctx.ok("split-through-split_with_remainder", sample={"writes": len(cw), "amounts_from": "split_with_remainder(..)"})
+    else:
+        own = [e for e in cw if any(isinstance(x, ast.BinOp) and isinstance(x.op, (ast.FloorDiv, ast.Mod, ast.Add)) for x in ast.walk(e.value)) or "divmod(" in norm(e.value)]
+        if own:
+            ctx.bad("split-through-split_with_remainder", ctx.where(dsp, own[0].node), "distribute_from_split_pool computes the shares itself (`%s`) instead of taking them from split_with_remainder: which outputs get the extra satoshi, and that the shares add up, is decided a second time here" % norm(own[0].value)[:80])
+        else:
+            ctx.undecided("split-through-split_with_remainder", ctx.where(dsp), "distribute_from_split_pool neither calls split_with_remainder nor shows arithmetic of its own in the written amounts")
     # (d) wrappers hand the fee on as given: 0 is a fee (`fee or default` replaces it)
     c = ctx.func(TU, "create_signed_tx")
     wc = sym.walk(ctx, c)
